@@ -40,7 +40,8 @@ TECHNIQUE = ("Coq: simulation lemma over the Gauss-Seidel sweeps (model/spec, ca
 LEVEL_TEXT = (
     "coq/Props/C17.v, all GENERAL (every network, sweep order, iteration count T): C17_formula_partial - the returned value is "
     "1 - average over vertices of the product over the vertex's motifs of H_T, H_T the T-th Gauss-Seidel iterate from "
-    "0.5 with explicit update equation; C17_model_is_spec - if every (motif, focal) equation of the network is the "
+    "0.5 with explicit update equation; C17_others_semantic - under the cover precondition (cover_okb, checked per case) "
+    "the products run over all OTHER motifs of each member, each once; C17_model_is_spec - if every (motif, focal) equation of the network is the "
     "exact expectation (decided by motifs_okb, a polynomial identity check; true for all motifs <= 5 vertices by C15) "
     "the model equals the specification iterate; C17_bounds - 0 <= value <= 1 for 0 <= phi <= 1; C17_zero - value 0 at "
     "phi = 0 for every T >= 1; C17_monotone - 0 <= phi <= phi' <= 1 implies value(phi) <= value(phi') for every T; C17_history - any sequence of queries on one object (evaluator caches persist, _H_tau is "
@@ -292,7 +293,7 @@ def check_verdict(case, impl_obs, raws):
     if raws[1] != 1:
         return "answers of fresh objects violate the property (c17_check)"
     if raws[2] != 1:
-        return "a motif equation of the network is not the exact expectation (c17_check_motifs)"
+        return "a motif equation of the network is not the exact expectation, or the cover precondition fails (c17_check_motifs)"
     return None
 
 
